@@ -200,9 +200,10 @@ def build_ops():
     add('evp.als(gevp)', 2, en_ax('hpd'), lambda s, A, x: evp.als(A, x, operator_gevp=A, solver='eigh'), base='evp.als')
     add('evp.power_method', 2, en_ax('hpd'), lambda s, A, x: evp.power_method(A, x, repeats=2, sigma=0.3))
     st = [0.1, 0.05]
-    add('ode.explicit_euler', 2, en_ax('hpd'), lambda s, A, x: ode.explicit_euler(A, x, st, normalize=0, progress=False))
+    add('ode.explicit_euler', 2, en_ax('hpd'), lambda s, A, x: ode.explicit_euler(A, x, st, normalize=0, progress=False),
+        prefix=lambda s, A, x: ode.explicit_euler(A, x, st[:1], normalize=0, progress=False))
     add('ode.explicit_euler(norm2)', 2, en_ax('hpd'), lambda s, A, x: ode.explicit_euler(A, x, st, normalize=2, progress=False),
-        base='ode.explicit_euler')
+        base='ode.explicit_euler', prefix=lambda s, A, x: ode.explicit_euler(A, x, st[:1], normalize=2, progress=False))
     add('ode.implicit_euler', 3, en_axb('hpd'), lambda s, A, x, g: ode.implicit_euler(A * (-1.0), x, g, st, normalize=0, progress=False))
     add('ode.implicit_euler(self-guess)', 2, en_ax('hpd'), lambda s, A, x: ode.implicit_euler(A * (-1.0), x, x, st, normalize=0, progress=False),
         base='ode.implicit_euler')
@@ -211,8 +212,10 @@ def build_ops():
     add('ode.trapezoidal_rule', 3, en_axb('hpd'), lambda s, A, x, g: ode.trapezoidal_rule(A * (-1.0), x, g, st, normalize=0, progress=False))
     add('ode.trapezoidal_rule(self-guess)', 2, en_ax('hpd'), lambda s, A, x: ode.trapezoidal_rule(A * (-1.0), x, x, st, normalize=0, progress=False),
         base='ode.trapezoidal_rule')
-    add('ode.hod', 2, en_ax('hpd'), lambda s, A, x: ode.hod(A, x, 0.05, 2, normalize=0, progress=False))
-    add('ode.hod(order4,norm2)', 2, en_ax('hpd'), lambda s, A, x: ode.hod(A, x, 0.05, 2, order=4, normalize=2, progress=False), base='ode.hod')
+    add('ode.hod', 2, en_ax('hpd'), lambda s, A, x: ode.hod(A, x, 0.05, 2, normalize=0, progress=False),
+        prefix=lambda s, A, x: ode.hod(A, x, 0.05, 1, normalize=0, progress=False))
+    add('ode.hod(order4,norm2)', 2, en_ax('hpd'), lambda s, A, x: ode.hod(A, x, 0.05, 2, order=4, normalize=2, progress=False), base='ode.hod',
+        prefix=lambda s, A, x: ode.hod(A, x, 0.05, 1, order=4, normalize=2, progress=False))
     add('ode.hod(previous_value)', 3, en_axb('hpd'), lambda s, A, x, p: ode.hod(A, x, 0.05, 2, previous_value=p, normalize=0, progress=False),
         base='ode.hod')
     # a user-supplied differencing operator: any live operator of the right shape is a legal argument (results of earlier sums
@@ -223,9 +226,16 @@ def build_ops():
     add('ode.errors_expl_euler', 3, en_axb('hpd'), lambda s, A, x, y: ode.errors_expl_euler(A, [x, y], [0.1]))
     add('ode.errors_impl_euler', 3, en_axb('hpd'), lambda s, A, x, y: ode.errors_impl_euler(A, [x, y], [0.1]))
     add('ode.errors_trapezoidal', 3, en_axb('hpd'), lambda s, A, x, y: ode.errors_trapezoidal(A, [x, y], [0.1]))
-    add('ode.tdvp1site', 2, en_ax('hpd'), lambda s, A, x: ode.tdvp1site(A, x, 0.05, 2))
-    add('ode.tdvp2site', 2, en_ax('hpd'), lambda s, A, x: ode.tdvp2site(A, x, 0.05, 2))
-    add('ode.tdvp', 2, en_ax('hpd'), lambda s, A, x: ode.tdvp(A, x, 0.05, 2))
+    add('ode.tdvp1site', 2, en_ax('hpd'), lambda s, A, x: ode.tdvp1site(A, x, 0.05, 2), prefix=lambda s, A, x: ode.tdvp1site(A, x, 0.05, 1))
+    add('ode.tdvp2site', 2, en_ax('hpd'), lambda s, A, x: ode.tdvp2site(A, x, 0.05, 2), prefix=lambda s, A, x: ode.tdvp2site(A, x, 0.05, 1))
+    add('ode.tdvp', 2, en_ax('hpd'), lambda s, A, x: ode.tdvp(A, x, 0.05, 2), prefix=lambda s, A, x: ode.tdvp(A, x, 0.05, 1))
+    # normalised trajectories (normalize=2): every entry is a state of its own, consistent with the shorter run (I9)
+    add('ode.tdvp1site(norm2)', 2, en_ax('hpd'), lambda s, A, x: ode.tdvp1site(A, x, 0.05, 3, normalize=2), base='ode.tdvp1site',
+        prefix=lambda s, A, x: ode.tdvp1site(A, x, 0.05, 2, normalize=2))
+    add('ode.tdvp2site(norm2)', 2, en_ax('hpd'), lambda s, A, x: ode.tdvp2site(A, x, 0.05, 3, normalize=2), base='ode.tdvp2site',
+        prefix=lambda s, A, x: ode.tdvp2site(A, x, 0.05, 2, normalize=2))
+    add('ode.tdvp(norm2)', 2, en_ax('hpd'), lambda s, A, x: ode.tdvp(A, x, 0.05, 3, normalize=2), base='ode.tdvp',
+        prefix=lambda s, A, x: ode.tdvp(A, x, 0.05, 2, normalize=2))
     add('ode.krylov', 2, en_ax('hpd'), lambda s, A, x: ode.krylov(A, x, 3, 0.05))
     add('ode.adaptive_step_size', 3, en_axb('gen'),
         lambda s, A, x, g: ode.adaptive_step_size(A, x, g, 0.3, step_size_first=0.1, progress=False))
@@ -257,6 +267,9 @@ def build_ops():
     add('reg.mandy_kb', 0, has('x', 'y'), lambda s: reg.mandy_kb(s.env['x'], s.env['y'], basis(s)), **dd)
     add('reg.arr', 1, lambda s, i: 'x' in s.env and 'arr-guess' in s.tags[i],
         lambda s, g: reg.arr(s.env['x'], s.env['y'], basis(s), g, repeats=2, rcond=1e-10, progress=False), **dd)
+    # a single output row (a list of length one on the inside): the guess is an input here as well
+    add('reg.arr(one row)', 1, lambda s, i: 'x' in s.env and 'arr-guess' in s.tags[i],
+        lambda s, g: reg.arr(s.env['x'], s.env['y'][:1], basis(s), g, repeats=2, rcond=1e-10, progress=False), base='reg.arr', **dd)
     add('tedmd.amuset_hosvd', 0, has('x', 'xi'), lambda s: tedmd.amuset_hosvd(s.env['x'], s.env['xi'], s.env['yi'], basis(s), threshold=1e-10), **dd)
     add('tedmd.amuset_hosvd(list,st_tf)', 0, has('x', 'xi'),
         lambda s: tedmd.amuset_hosvd(s.env['x'], [s.env['xi'], s.env['xi2']], [s.env['yi'], s.env['yi2']], basis(s), threshold=1e-10, st_tf=True),
@@ -272,7 +285,12 @@ def build_ops():
     add('tdmd.tdmd_standard', 2, lambda s, i, j: 'snap-x' in s.tags[i] and 'snap-y' in s.tags[j], lambda s, x, y: tdmd.tdmd_standard(x, y, threshold=1e-10), **dd)
     for nm, f in (('lie', ode.lie_splitting), ('strang', ode.strang_splitting), ('yoshida', ode.yoshida_splitting), ('kahan_li', ode.kahan_li_splitting)):
         add('ode.%s_splitting' % nm, 1, lambda s, i: 'S' in s.env and 'chain-state' in s.tags[i],
-            (lambda ff: lambda s, x: ff(s.env['S'], s.env['L'], s.env['I'], s.env['M'], x, 0.1, 2, threshold=0, max_rank=50, normalize=0))(f), **dd)
+            (lambda ff: lambda s, x: ff(s.env['S'], s.env['L'], s.env['I'], s.env['M'], x, 0.1, 2, threshold=0, max_rank=50, normalize=0))(f),
+            prefix=(lambda ff: lambda s, x: ff(s.env['S'], s.env['L'], s.env['I'], s.env['M'], x, 0.1, 1, threshold=0, max_rank=50, normalize=0))(f), **dd)
+        add('ode.%s_splitting(norm2)' % nm, 1, lambda s, i: 'S' in s.env and 'chain-state' in s.tags[i],
+            (lambda ff: lambda s, x: ff(s.env['S'], s.env['L'], s.env['I'], s.env['M'], x, 0.1, 3, threshold=0, max_rank=50, normalize=2))(f),
+            prefix=(lambda ff: lambda s, x: ff(s.env['S'], s.env['L'], s.env['I'], s.env['M'], x, 0.1, 2, threshold=0, max_rank=50, normalize=2))(f),
+            base='ode.%s_splitting' % nm, **dd)
         add('ode.%s_splitting(list)' % nm, 1, lambda s, i: 'S' in s.env and 'chain-state' in s.tags[i],
             (lambda ff: lambda s, x: ff([s.env['S']] * 3, [s.env['L']] * 3, [s.env['I']] * 3, [s.env['M']] * 3, x, 0.1, 1, threshold=0, max_rank=50, normalize=2))(f),
             base='ode.%s_splitting' % nm, **dd)
